@@ -1179,6 +1179,10 @@ def evaluate(ctx, cases, name="c17_cases"):
     wss = [(i, c) for i, c in enumerate(cases) if c.get("pure_cpu") and c["complete"] and hook_gaps_ok(c["evs"])]
     defs += "Definition wspeccases : list bool := [\n%s\n].\n" % ";\n".join(
         "(let '(_, b, _, r) := nth %d cases d0 in list_eqb oitem_eqb r (wspec b))" % i for i, c in wss)
+    hss = [(i, c) for i, c in enumerate(cases) if c["klass"] == "watch0" and c["complete"] and hook_gaps_ok(c["evs"])
+           and room_ok(c) and not c["cfg"].get("threshold") and c["cfg"].get("depth") is None]
+    defs += "Definition hspeccases : list bool := [\n%s\n].\n" % ";\n".join(
+        "(let '(a, b, _, r) := nth %d cases d0 in list_eqb oitem_eqb r (hspec a b))" % i for i, c in hss)
     T = "(xcfg * list xev * list xobs * list oitem)"
     res = coq.run_cases(ctx, name, PRE, with_shared(defs), [
         ("mismatch", "bad_indices (fun c : %s => let '(a, b, o, r) := c in agree_x a b o r) cases 0" % T),
@@ -1191,6 +1195,7 @@ def evaluate(ctx, cases, name="c17_cases"):
         ("spec", "bad_indices (fun b : bool => b) speccases 0"),
         ("watch", "bad_indices (fun b : bool => b) watchcases 0"),
         ("wspec", "bad_indices (fun b : bool => b) wspeccases 0"),
+        ("hspec", "bad_indices (fun b : bool => b) hspeccases 0"),
     ], timeout=1500)
     if res is None:
         return
@@ -1217,7 +1222,13 @@ def evaluate(ctx, cases, name="c17_cases"):
     for j in R["wspec"][:2]:
         ctx.violation("C17: the stream with -W cpu differs from the hook-by-hook specification (event iff changed, "
                       "stamp, position in front of the hook's record)", replay_obj(wss[j][1]), True)
-    if R["mismatch"] and not (R["nested"] or R["adjacent"] or R["times"] or R["spec"] or R["watch"] or R["wspec"]):
+    ctx.extra["stream_spec_checks"] = ctx.extra.get("stream_spec_checks", 0) + len(hss)
+    for j in R["hspec"][:2]:
+        ctx.violation("C17: the stream (read= + -W cpu / -W var, no threshold) differs from the hook-by-hook specification "
+                      "(every hook's watch events in front of its record, read events behind ENTRY, diff events before EXIT)",
+                      replay_obj(hss[j][1]), True)
+    if R["mismatch"] and not (R["nested"] or R["adjacent"] or R["times"] or R["spec"] or R["watch"] or R["wspec"]
+                              or R["hspec"]):
         c = cases[R["mismatch"][0]]
         ctx.violation("model and libmcount disagree on %d case(s); the C17 checkers accept every explored implementation "
                       "output" % len(R["mismatch"]),
